@@ -5,7 +5,7 @@
    [rec]/[wh] (how nested code and while$ loops are run) are universally quantified in the
    per-built-in laws; [exec n] / [while_loop n] are the instances the interpreter uses. *)
 From Pybtex Require Import Base.Prelude Base.PyChar Base.PyStr Model.BibtexStr Model.Wrap Model.Names Model.NameFormat Model.Bst Model.BstReal
-  Spec.BstSem Spec.BstDoc Spec.BstTyping Proofs.Bst Proofs.BstSort Proofs.BstSem Proofs.BstLaws Proofs.BstTyping Proofs.BstOrder Proofs.BstDoc Proofs.BstReal.
+  Spec.BstSem Spec.BstDoc Spec.BstTyping Proofs.Bst Proofs.BstSort Proofs.BstSem Proofs.BstLaws Proofs.BstTyping Proofs.BstOrder Proofs.BstDoc Proofs.BstDocSound Proofs.BstReal.
 From Coq Require Import Permutation Sorted.
 
 (* --- more fuel never changes the outcome of a run that ended (normally or with an error) *)
@@ -306,6 +306,27 @@ Theorem doc_complete : forall fmt cw st p st',
   bigsteps fmt cw (builtin_doc fmt cw) st p st' -> exists n, exec fmt cw n st p = Ok st'.
 Proof. exact Proofs.BstDoc.doc_complete. Qed.
 Print Assumptions doc_complete.
+
+(* --- program-level doc_sound: the typing is threaded through the whole derivation.  Every terminating run of a
+       program accepted by the type checker, from a well-formed state, with any fuel, is derivable in the big-step
+       semantics over the DOCUMENTED rules (Spec/BstDoc.v) -- no rule refers to the model's built-in code.
+       With doc_complete: on well-typed programs the interpreter implements exactly the documented language. *)
+Theorem doc_sound : forall fmt cw G ent tys cf s p s',
+  (forall n f, fmt n f <> Crash) -> ctx_ok G = true ->
+  check G ent tys cf s p = Some s' ->
+  forall n st st', state_ok G ent tys st -> sabs (st_stack st) s ->
+  exec fmt cw n st p = Ok st' ->
+  bigsteps fmt cw (builtin_doc fmt cw) st p st'.
+Proof. exact Proofs.BstDocSound.doc_sound. Qed.
+Print Assumptions doc_sound.
+
+Theorem doc_sound_real : forall cw G ent tys cf s p s',
+  ctx_ok G = true -> check G ent tys cf s p = Some s' ->
+  forall n st st', state_ok G ent tys st -> sabs (st_stack st) s ->
+  exec_real cw n st p = Ok st' ->
+  bigsteps real_fmt cw (builtin_doc real_fmt cw) st p st'.
+Proof. exact Proofs.BstReal.doc_sound_real. Qed.
+Print Assumptions doc_sound_real.
 
 Theorem while_sound : forall fmt cw n st p f st',
   while_loop fmt cw n st p f = Ok st' -> whilerel fmt cw (model_simple fmt cw) st p f st'.
